@@ -42,7 +42,7 @@ S_NAMES = [b"tech:log", b"logfile", b"log_file"]
 F_NAMES = [b"tech:quiet", b"quiet", b"silent"]
 U_NAMES = [b"foo", b"iterlimx", b"alg:", b"xgap", b"lim:wt", b"q", b"tech:logg", b"lim:*:wt", b"*"]
 BLANKS = [b" ", b" ", b" ", b"  ", b"\t", b" \t ", b"\n", b"\r", b"\x0b", b"\x0c"]
-NUMS = [b"5", b"-3", b"+12", b"007", b"2.5", b"-0.125", b".5", b"3.", b"0", b"1e3", b"12345678", b"0x1A", b"-", b"1.2345"]
+NUMS = [b"5", b"-3", b"+12", b"007", b"010", b"0.1", b"2.5", b"-0.125", b".5", b"3.", b"0", b"1e3", b"12345678", b"0x1A", b"-", b"1.2345"]
 WORDS = [b"abc", b"x1", b"path/to.f", b"a=b", b"Z", b"inf", b"nan"]
 JUNK = [b"\xe9\xff", b"\x01\x02", b"%$#", b"y" * 300, b"\x80", b"\xc3\xa9t\xc3\xa9", b"\\", b"\x7f"]
 
@@ -80,8 +80,8 @@ def render_cls(seq, rnd):
 OPT_NAMES = {"int": [b"alg:iter", b"iterlim", b"maxit"], "int2": [b"alg:mode", b"mode"],
              "dbl": [b"tol:gap", b"gap", b"mipgap"], "str": S_NAMES, "flag": F_NAMES,
              "wild": [b"lim:3:wt", b"lim_3_wt"]}
-VALUES = {("int", 1): [b"5", b"+5", b"005"], ("int", 2): [b"-12"], ("int2", 1): [b"5", b"+5"], ("int2", 2): [b"-12", b"0"],
-          ("dbl", 1): [b"2.5", b"2.50", b"+2.5"], ("dbl", 2): [b"-0.125", b"-.125"],
+VALUES = {("int", 1): [b"5", b"+5", b"005"], ("int", 2): [b"-12", b"010"], ("int2", 1): [b"5", b"+5"], ("int2", 2): [b"-12", b"0"],
+          ("dbl", 1): [b"2.5", b"2.50", b"+2.5"], ("dbl", 2): [b"-0.125", b"-.125", b"0.1"],
           ("str", 1): [b"abc", b"'abc'", b'"abc"'], ("str", 2): [b"'a b'", b'"x=y z"', b"p/q.log", b"''"],
           ("wild", 1): [b"1.5"], ("wild", 2): [b"0.25", b".25"]}
 
